@@ -129,12 +129,12 @@ class SmiV2Lexer(AbstractLexer):
         t.lexer.lineno += 1
 
     def t_macro_END(self, t):
-        r'END'
+        r'(?<![-a-zA-Z0-9"])END(?!-(?!-)|[a-zA-Z0-9"])'
         t.lexer.begin('INITIAL')
         return t
 
     def t_macro_body(self, t):
-        r'.+?(?=END)'
+        r'.+?(?=(?<![-a-zA-Z0-9"])END(?!-(?!-)|[a-zA-Z0-9"]))'
         t.lexer.lineno += len(re.findall(r'\r\n|\n|\r', t.value))
 
     def t_macro_error(self, t):
